@@ -71,6 +71,22 @@ def jsonEscChar (c : Char) : Chars :=
 
 def jsonString (s : Chars) : Chars := '"' :: (s.flatMap jsonEscChar ++ ['"'])
 
+/-- `json.encoder.ESCAPE` (`ensure_ascii=False`, what `print_ast` uses since the R2 fix): only `"`, `\` and
+    the control characters below U+0020 are escaped; everything else stands for itself. -/
+def jsonEscCharRaw (c : Char) : Chars :=
+  if c = '"' then ['\\', '"']
+  else if c = '\\' then ['\\', '\\']
+  else if c = '\n' then ['\\', 'n']
+  else if c = '\r' then ['\\', 'r']
+  else if c = '\t' then ['\\', 't']
+  else if c.toNat = 8 then ['\\', 'b']
+  else if c.toNat = 12 then ['\\', 'f']
+  else if c.toNat < 32 then hex4 c.toNat
+  else [c]
+
+/-- `json.dumps(s, ensure_ascii=False)` -/
+def jsonStringRaw (s : Chars) : Chars := '"' :: (s.flatMap jsonEscCharRaw ++ ['"'])
+
 mutual
 /-- `json.dumps(v)` on a canonical value (`{"$float": repr}` stands for a Python float) -/
 def jsonDumps : J → Chars
@@ -101,7 +117,7 @@ def printLit : Lit → Chars
   | .bool false => ['f', 'a', 'l', 's', 'e']
   | .int n => showInt n
   | .float t => t
-  | .str s => jsonString s
+  | .str s => jsonStringRaw s
   | .enum n => n
   | .list xs => '[' :: (printLits xs ++ [']'])
   | .obj fs => '{' :: (printLitFields fs ++ ['}'])
